@@ -78,7 +78,7 @@ Proof.
   split.
   - eapply Fr_trans; [apply Fr_stop_timer|]. fold s1. eapply Fr_trans; [apply Fr_cancel_inst|]. fold s2.
     eapply Fr_trans; [apply (Fr_set_insts s2)|].
-    assert (X : getr (set_insts s2 (insts s2 ++ [{| irec := r; ikey := rkey x; ilin := rlin x; iwait := w; ipcv := IGate0; icanc := false;
+    assert (X : getr (set_insts s2 (insts s2 ++ [{| irec := r; ikey := rkey x; ilin := rlin x; iwait := w; ipcv := IGate0; icanc := root_canc s c;
                                                    iexit := false; idata := rdata x; iroot := c |}])) r = x).
     { unfold getr, x. cbn [recs set_insts]. now rewrite C2, T2. }
     apply Fr_setr; rewrite X; reflexivity.
@@ -571,9 +571,14 @@ Proof.
   unfold set_context. destruct (Nat.eqb (kctx s) c && negb restart); [apply Fr0_refl|].
   eapply Fr0_trans; [split; [apply Fr_set_kctx | reflexivity]|]. apply Fr0_fold. intros; apply Fr0_ctx_key.
 Qed.
+Lemma Fr0_norm_ctx s : Fr0 s (norm_ctx s).
+Proof. unfold norm_ctx. destruct (root_canc s (kctx s)); [split; [apply Fr_set_kctx | reflexivity] | apply Fr0_refl]. Qed.
+Lemma Fr0_cancel_root s c : Fr0 s (cancel_root s c).
+Proof. unfold cancel_root. destruct (Nat.eqb c 0); [apply Fr0_refl|]. split; [apply Fr_ext; reflexivity | reflexivity]. Qed.
 Lemma Fr0_restart_routine s k cond : Fr0 s (fst (restart_routine s k cond)).
 Proof.
-  unfold restart_routine. destruct (lookup (kmap s) k) as [r|]; [|apply Fr0_refl].
+  unfold restart_routine. eapply Fr0_trans; [apply Fr0_norm_ctx|]. generalize (norm_ctx s). clear s. intros s. unfold restart_core.
+  destruct (lookup (kmap s) k) as [r|]; [|apply Fr0_refl].
   destruct (negb (has_ctx s)); [apply Fr0_refl|]. destruct (negb (cond_match cond k)); [apply Fr0_refl|]. cbn [fst].
   eapply Fr0_trans; [apply (Fr0_cancel_forget s r (with_cancel (getr s r) None)); reflexivity | apply Fr0_start].
 Qed.
@@ -819,7 +824,10 @@ Theorem sync_keys_refines s a keys restart :
   R (fst (sync_keys repaired s keys restart)) (fst (a_sync a keys (now_of s))) /\
   snd (sync_keys repaired s keys restart) = snd (a_sync a keys (now_of s)).
 Proof.
-  intros HI HR. unfold sync_keys, a_sync.
+  intros HI HR. unfold sync_keys.
+  assert (HI' := Inv_norm_ctx s HI). assert (HR' : R (norm_ctx s) a) by (apply (R_Fr0 s); [apply Fr0_norm_ctx | exact HR]).
+  assert (EN : now_of (norm_ctx s) = now_of s) by (unfold norm_ctx; destruct (root_canc s (kctx s)); reflexivity).
+  rewrite <- EN. clear EN HI HR. revert HI' HR'. generalize (norm_ctx s). clear s. intros s HI HR. unfold sync_core, a_sync.
   destruct (sync_fold1 restart keys s a [] [] HI HR) as [H1 [H2 [H3 [H4 [H5 H6]]]]]. cbn zeta in *.
   destruct (fold_left (sync_one repaired restart) keys (s, [], [])) as [[s1 seen] added].
   destruct (fold_left a_sync_one keys (a, [], [])) as [[a1 seen'] added']. cbn [fst snd] in *. subst seen' added'.
@@ -871,6 +879,7 @@ Proof.
   - now apply bookkeep_refines.
   - apply (R_Fr0 s); [apply Fr0_advance | exact HR].
   - now apply timer_cb_refines.
+  - apply (R_Fr0 s); [apply Fr0_cancel_root | exact HR].
 Qed.
 
 (* the abstract run that accompanies a concrete history *)
